@@ -205,10 +205,10 @@ func genC17(t *rapid.T) (CaseC17, map[string]bool) {
 	elevators := []string{"123", "7", "12X", ""}
 	nSt := rapid.IntRange(0, 4).Draw(t, "nStations")
 	if rapid.IntRange(0, 24).Draw(t, "sizeClass") == 0 {
-		nSt = rapid.SampledFrom([]int{17, 33}).Draw(t, "manyStations")
+		nSt = rapid.SampledFrom([]int{17, 33, 70, 130}).Draw(t, "manyStations")
 		stations = nil
 		for i := 0; i < nSt; i++ {
-			stations = append(stations, fmt.Sprintf("%c%02d", 'A'+i%26, i))
+			stations = append(stations, fmt.Sprintf("%c%02d", 'A'+i%26, i%100))
 		}
 		elevators = []string{"1", "2", "3", "4", "5", "6", "7", "8", "9", "10", "11", "12", "13", "14", "15", "16", "17", "18", "19", "20"}
 	}
